@@ -397,6 +397,7 @@ func (g *Gen) applyCallInner(ce callee, c *ssa.CallCommon, val ssa.Value, pos to
 			ctr = nil
 		}
 	}
+	g.recursionObligation(ce, c, args, pos, guard)
 	pre := copyState(g.cur)
 	if ctr != nil {
 		g.usedCtr[ctr.Key] = true
